@@ -44,7 +44,7 @@ Abstract(s, rs, bs, maxBody, cut) ==
                           big |-> (maxBody > 0 /\ s[i].bodyLen > maxBody),
                           partial |-> (cut > 0 /\ o[i].start < cut /\ cut < o[i].end)]]
 
-NoCfg == [streaming |-> FALSE, idle |-> "inloop", trace |-> FALSE, wfail |-> 0]
+NoCfg == [streaming |-> FALSE, idle |-> "inloop", trace |-> FALSE, wfail |-> 0, deny |-> FALSE]
 Blank == /\ reqs' = << >> /\ cfg' = NoCfg /\ sent' = 0 /\ eof' = FALSE /\ rd' = 0
          /\ phase' = "closed" /\ cur' = 1 /\ cons' = 0 /\ interim' = FALSE /\ hlog' = << >> /\ out' = << >>
          /\ topen' = FALSE /\ pairReq' = 0 /\ tlog' = << >> /\ script' = << >> /\ active' = FALSE
@@ -70,7 +70,7 @@ TraceCase == /\ HasLine /\ Line.ev = "Case" /\ ~active
              /\ \A i \in DOMAIN Line.script : WellFormedReq(Line.script[i])
              /\ script' = Line.script /\ active' = TRUE /\ readDone' = FALSE /\ eofSeen' = FALSE /\ unread' = FALSE
              /\ reqs' = Abstract(Line.script, Line.resps, Line.behs, Line.cfg.maxBody, Line.cfg.truncate)
-             /\ cfg' = [streaming |-> Line.cfg.streaming, idle |-> Line.cfg.idle, trace |-> Line.cfg.trace # "off", wfail |-> Line.cfg.wfail]
+             /\ cfg' = [streaming |-> Line.cfg.streaming, idle |-> Line.cfg.idle, trace |-> Line.cfg.trace # "off", wfail |-> Line.cfg.wfail, deny |-> Line.cfg.deny]
              /\ behs' = Line.behs /\ level' = Line.cfg.trace /\ resps' = Line.resps
              /\ sent' = 0 /\ eof' = FALSE /\ rd' = 0 /\ phase' = "idle" /\ cur' = 1 /\ cons' = 0 /\ interim' = FALSE
              /\ hlog' = << >> /\ out' = << >> /\ topen' = FALSE /\ pairReq' = 0 /\ tlog' = << >>
@@ -85,7 +85,7 @@ TraceInterim == /\ active /\ HasLine /\ Line.ev = "Response" /\ Line.kind = "int
 \* the handler is entered: what it sees is what framing assigns to request cur
 TraceHandle ==
     /\ active /\ HasLine /\ Line.ev = "Handle"
-    /\ Handle(IF Line.rd = -1 THEN (IF cfg.streaming THEN reqs[cur].headEnd ELSE reqs[cur].end) ELSE Line.rd)   \* -1: real sockets, position unknown
+    /\ Handle(IF Line.rd = -1 THEN (IF cfg.streaming \/ Denied(cur) THEN reqs[cur].headEnd ELSE reqs[cur].end) ELSE Line.rd)   \* -1: real sockets, position unknown
     /\ Line.seq = cur
     /\ LET e == Expected(script[cur], cur) IN
        /\ Line.method = e.method /\ Line.target = e.target /\ Line.ver = e.ver
@@ -99,7 +99,7 @@ OneRun(i, c, k) == IF k = 0 THEN << >> ELSE <<<<i, c, c + k>>>>
 \* buffered body: one read returning the whole body
 TraceReadBuffered ==
     /\ active /\ HasLine /\ Line.ev = "Read" /\ ~cfg.streaming /\ phase = "handle" /\ ~readDone
-    /\ Line.k = BodyLen(cur) /\ Line.runs = OneRun(cur, 0, Line.k) /\ Line.err = ""
+    /\ Line.k = (IF Denied(cur) THEN 0 ELSE BodyLen(cur)) /\ Line.runs = OneRun(cur, 0, Line.k) /\ Line.err = ""
     /\ Line.rd = rd \/ Line.rd = -1
     /\ readDone' = TRUE
     /\ Consume /\ UNCHANGED <<vars, script, active, eofSeen, unread, behs, level, resps>>
@@ -110,8 +110,9 @@ TraceReadStream ==
     /\ Line.err = "" \/ (reqs[cur].partial /\ ~Line.eof)      \* a body cut short by the peer fails the read
     /\ Line.k >= 0 /\ Line.k <= Line.p
     /\ Line.runs = OneRun(cur, cons, Line.k)
-    /\ Line.eof => cons + Line.k = BodyLen(cur)          \* EOF is not reported early
+    /\ Line.eof => (cons + Line.k = BodyLen(cur) \/ Denied(cur))   \* EOF is not reported early (a refused body is never read)
     /\ (cons = BodyLen(cur) /\ Line.p > 0) => Line.eof   \* nor late: a read at the end reports EOF
+    /\ Denied(cur) => Line.k = 0
     /\ ~eofSeen \/ Line.k = 0
     /\ Line.rd = -1 \/ (rd <= Line.rd /\ Line.rd <= reqs[cur].end /\ Line.rd <= sent)   \* never consumes beyond the body
     /\ IF Line.k = 0 THEN UNCHANGED cons ELSE cons' = cons + Line.k
@@ -156,7 +157,7 @@ TraceRespond ==
     /\ IF cur \in DOMAIN resps THEN ProgResponseOK(resps[cur], cur)
        ELSE /\ Line.kind = "final"
             /\ IF Beh(cur) = "panic" THEN Line.status = 500
-               ELSE Line.status = 200 /\ Line.seq = cur /\ Line.body = "ok-" \o ToDec(cur)
+               ELSE Line.seq = cur /\ Line.body = "ok-" \o ToDec(cur) /\ (Line.status = 200 \/ Denied(cur))
     /\ Consume /\ KeepAux
 
 \* a malformed / oversized / cut-short request is answered with one 4xx carrying Connection: close (C03)
@@ -171,7 +172,7 @@ TraceWriteFail == /\ active /\ HasLine /\ Line.ev = "WriteFailed" /\ WriteFail /
 
 TraceClosed ==
     /\ active /\ HasLine /\ Line.ev = "ConnClosed"
-    /\ \/ CloseAfter /\ UNCHANGED unread
+    /\ \/ CloseAfter /\ unread' = (unread \/ Denied(cur))   \* a refused body ends the connection too
        \/ phase = "after" /\ ~LastClose /\ CloseUnread /\ unread' = TRUE
        \/ IdleClose /\ UNCHANGED unread
        \/ AbortPartial /\ UNCHANGED unread
@@ -204,7 +205,7 @@ TraceTFinish ==
 NeedsIdle == /\ HasLine
              /\ \/ Line.ev = "Handle"
                 \/ Line.ev = "Response" \/ Line.ev = "TStart"
-                \/ (Line.ev = "ConnClosed" /\ ~(cfg.streaming /\ rd < reqs[cur].end))
+                \/ (Line.ev = "ConnClosed" /\ ~((cfg.streaming \/ Denied(cur)) /\ rd < reqs[cur].end))
 TraceContinue == /\ active /\ phase = "after" /\ NeedsIdle /\ Continue /\ UNCHANGED <<l, bad>> /\ KeepAux
 
 \* the connection is over: every request up to the first that closes was handled, unless the server gave up on
